@@ -17,7 +17,9 @@ import (
 
 type rtCase struct {
 	// Rows > 0: generated frame of Rows rows (int id, string s, float f) for the output-size sweep
-	Rows      int         `json:"rows,omitempty"`
+	Rows int `json:"rows,omitempty"`
+	// LongCell > 0 (with Rows): the string cell of row 2 has this many bytes
+	LongCell  int         `json:"long_cell,omitempty"`
 	Frame     model.Frame `json:"frame"`
 	Shape     int         `json:"shape"`
 	Header    bool        `json:"header"`
@@ -93,8 +95,21 @@ func runRTCase(c rtCase) *core.Failure {
 		fc := model.Col{Name: "f", Kind: model.Float}
 		for r := 0; r < c.Rows; r++ {
 			id.Cells = append(id.Cells, model.I(r))
-			sc.Cells = append(sc.Cells, model.S(strings.Repeat("y", 1+r%4)+","))
-			fc.Cells = append(fc.Cells, model.F(float64(r)/8))
+			if c.LongCell > 0 && r == 2 {
+				sc.Cells = append(sc.Cells, model.S(strings.Repeat("y", c.LongCell)+","))
+			} else {
+				sc.Cells = append(sc.Cells, model.S(strings.Repeat("y", 1+r%4)+","))
+			}
+			if r%2 == 0 {
+				fc.Cells = append(fc.Cells, model.F(float64(r)/8))
+			} else {
+				// full-precision doubles (16-17 significant digits) spread over [9, 10) and [0.1, 1)
+				v := 9 + float64(r)/float64(7*c.Rows+3)
+				if r%4 == 3 {
+					v = 0.1 + 0.9*float64(r)/float64(7*c.Rows+3)
+				}
+				fc.Cells = append(fc.Cells, model.F(v))
+			}
 		}
 		c.Frame = model.Frame{N: c.Rows, Cols: []model.Col{id, sc, fc}}
 	}
@@ -251,6 +266,14 @@ func c13Run(ctx *core.Ctx) {
 	for rows := 1; rows <= 500; rows++ {
 		if ctx.Mine() {
 			exec(rtCase{Rows: rows, Shape: rows % model.NShapes, Header: rows%2 == 0}, "size-sweep")
+		}
+	}
+	// a very long cell (the reader's buffer has to grow beyond 64 KiB) followed by many short rows
+	for _, lc := range []int{5000, 33000, 70000, 140000} {
+		for _, rows := range []int{3, 50, 600} {
+			if ctx.Mine() {
+				exec(rtCase{Rows: rows, LongCell: lc, Shape: rows % model.NShapes, Header: true}, "long-cell")
+			}
 		}
 	}
 	// family B: three columns of every type combination, reduced alphabets, every column permutation for the writer
